@@ -9,14 +9,16 @@ CLIENT (`middleware.go` `writeMultiPart` / `writeMultipartFormFile` / `createMul
 `formDataContentType`.
 
 `quote` is the REPAIRED `ContentDisposition.string` quoting (fixes/C17-1): backslash and double
-quote are backslash-escaped (exactly what `mime/multipart` does for field names), CR and LF —
-which no MIME quoted-string can carry — are percent-encoded as the WHATWG form-data algorithm
-and newer Go releases do.  `goQuoteAscii` is the quoting the unpatched code performs (Go's `%q`)
-on ASCII input; it is kept to state the defect (`Props/C17`: `goquote_…`).
+quote are backslash-escaped (exactly what `mime/multipart` does for field names); bytes that
+cannot occur in a header field value at all (controls other than TAB, DEL — among them CR and
+LF) are percent-encoded, as the WHATWG form-data algorithm and newer Go releases do for CR/LF.
+`goQuoteAscii` is the quoting the unpatched code performs (Go's `%q`) on ASCII input; it is kept
+to state the defect (`Props/C17`: `goquote_…`).
 
 SERVER (independent; RFC 7578 / RFC 2045 as Go's `mime/multipart.Reader`, `net/textproto` and
-`mime.ParseMediaType` implement them): `splitDelim`, `readHeaders`, `parseParts`, `parseBody`,
-`consumeQuoted`, `parseParams`, `parseDisposition`, `serverForm`.
+`mime.ParseMediaType` implement them): `skipPreamble`, `readHeaders`, `splitBoundary`,
+`parseParts`, `parseBody`, `consumeQuoted`, `parseParams`, `parseMediaType`, `serverForm`.
+Constructs the model does not cover are reported as `Err.unsupported`, never guessed.
 -/
 namespace Req.Multipart
 open Req.Proto Req.Ascii
@@ -26,12 +28,18 @@ def dashes : Bytes := [45, 45]
 
 /-! ## client -/
 
+/-- Bytes `net/textproto` refuses inside a header field value (`validHeaderValueByte` negated):
+controls other than TAB, and DEL. -/
+def headerUnsafe (c : UInt8) : Bool := (c < 32 && c != 9) || c == 127
+
+def pctByte (c : UInt8) : Bytes :=
+  [37, Req.Form.upperHex (c.toNat / 16), Req.Form.upperHex (c.toNat % 16)]
+
 /-- REPAIRED quoting of one byte of a Content-Disposition parameter value. -/
 def quoteByte (c : UInt8) : Bytes :=
   if c == 92 then [92, 92]
   else if c == 34 then [92, 34]
-  else if c == 13 then [37, 48, 68]       -- %0D
-  else if c == 10 then [37, 48, 65]       -- %0A
+  else if headerUnsafe c then pctByte c
   else [c]
 
 def quote (s : Bytes) : Bytes := s.flatMap quoteByte
@@ -107,9 +115,12 @@ def fileHeader (f : File) : Bytes :=
   headerLine cdHeader (fileDisposition f) ++
   (if isStringEmpty f.ctype then [] else headerLine ctHeader f.ctype) ++ crlf
 
-/-- Part header block of a plain field (`Writer.WriteField` → `CreateFormField`). -/
-def fieldHeader (k : Bytes) : Bytes :=
-  headerLine cdHeader (formData ++ [59, 32] ++ nameKey ++ [61, 34] ++ escapeQuotes k ++ [34]) ++ crlf
+/-- Content-Disposition value of a plain field (`Writer.WriteField` → `CreateFormField`). -/
+def fieldDisposition (k : Bytes) : Bytes :=
+  formData ++ [59, 32] ++ nameKey ++ [61, 34] ++ escapeQuotes k ++ [34]
+
+/-- Part header block of a plain field. -/
+def fieldHeader (k : Bytes) : Bytes := headerLine cdHeader (fieldDisposition k) ++ crlf
 
 structure Part where
   header : Bytes
@@ -131,8 +142,8 @@ def writeParts (b : Bytes) : List Part → Bytes
   | [] => delim b ++ dashes ++ crlf
   | p :: ps => dashes ++ b ++ crlf ++ p.header ++ p.content ++ writeRest b ps ++ delim b ++ dashes ++ crlf
 
-/-- `writeMultiPart`: fields (in the order given: map iteration order, or the ordered pairs),
-then the files, then `w.Close()`. -/
+/-- `writeMultiPart`: fields (in the order given: the ordered pairs, then the map in its
+iteration order), then the files, then `w.Close()`. -/
 def write (b : Bytes) (fields : List (Bytes × Bytes)) (files : List File) : Bytes :=
   writeParts b (fields.map fieldPart ++ files.map filePart)
 
@@ -140,30 +151,30 @@ def isTSpecial (c : UInt8) : Bool :=
   c == 40 || c == 41 || c == 60 || c == 62 || c == 64 || c == 44 || c == 59 || c == 58 ||
   c == 92 || c == 34 || c == 47 || c == 91 || c == 93 || c == 63 || c == 61
 
-def multipartFormData : Bytes :=   -- "multipart/form-data; boundary="
-  [109, 117, 108, 116, 105, 112, 97, 114, 116, 47, 102, 111, 114, 109, 45, 100, 97, 116, 97,
-   59, 32, 98, 111, 117, 110, 100, 97, 114, 121, 61]
+def multipartFormData : Bytes :=   -- "multipart/form-data"
+  [109, 117, 108, 116, 105, 112, 97, 114, 116, 47, 102, 111, 114, 109, 45, 100, 97, 116, 97]
+def boundaryKey : Bytes := [98, 111, 117, 110, 100, 97, 114, 121]   -- "boundary"
 
 /-- `Writer.FormDataContentType`: the boundary is quoted when it contains a tspecial or space. -/
 def formDataContentType (b : Bytes) : Bytes :=
-  if b.any (fun c => isTSpecial c || c == 32) then multipartFormData ++ [34] ++ b ++ [34]
-  else multipartFormData ++ b
+  multipartFormData ++ [59, 32] ++ boundaryKey ++ [61] ++
+  (if b.any (fun c => isTSpecial c || c == 32) then [34] ++ b ++ [34] else b)
+
+def boundaryChar (c : UInt8) : Bool :=
+  isAlpha c || isDigit c || c == 39 || c == 40 || c == 41 || c == 43 || c == 95 ||
+  c == 44 || c == 45 || c == 46 || c == 47 || c == 58 || c == 61 || c == 63 || c == 32
 
 /-- `Writer.SetBoundary`'s validity test. -/
 def validBoundary (b : Bytes) : Bool :=
-  1 ≤ b.length && b.length ≤ 70 &&
-  b.all (fun c => isAlpha c || isDigit c || c == 39 || c == 40 || c == 41 || c == 43 || c == 95 ||
-    c == 44 || c == 45 || c == 46 || c == 47 || c == 58 || c == 61 || c == 63 || c == 32) &&
-  b.getLast? != some 32
+  1 ≤ b.length && b.length ≤ 70 && b.all boundaryChar && b.getLast? != some 32
 
 /-! ## server -/
 
-/-- First occurrence of `d`: (before, after). -/
-def splitDelim (d : Bytes) : Bytes → Option (Bytes × Bytes)
-  | [] => if d.isEmpty then some ([], []) else none
-  | c :: cs =>
-    if d.isPrefixOf (c :: cs) then some ([], (c :: cs).drop d.length)
-    else (splitDelim d cs).map fun r => (c :: r.1, r.2)
+inductive Err where
+  | malformed       -- Go's reader reports an error as well
+  | unsupported     -- outside this model (LF-only framing, RFC 2231 parameters)
+  | eof             -- input ended inside a header block (Go: plain io.EOF = quiet end of parts)
+deriving Repr, DecidableEq
 
 def stripCR (l : Bytes) : Bytes :=
   if l.getLast? == some 13 then l.dropLast else l
@@ -171,58 +182,136 @@ def stripCR (l : Bytes) : Bytes :=
 def isLWS (c : UInt8) : Bool := c == 32 || c == 9
 
 def trimLeft (s : Bytes) : Bytes := s.dropWhile isLWS
-def trim (s : Bytes) : Bytes := (trimLeft s.reverse).reverse |> trimLeft
+def trim (s : Bytes) : Bytes := trimLeft (trimLeft s.reverse).reverse
 
-/-- MIME header block: lines up to the blank line. A line ends at LF (one preceding CR is
-dropped); `key: value` with a token key (canonicalised) and the value trimmed. Folded
-(continuation) lines are not supported by this model: `none`. -/
-def readHeaders : Nat → Bytes → Option (List (Bytes × Bytes) × Bytes)
-  | 0, _ => none
-  | fuel + 1, s =>
+/-- One line (`bufio.Reader.ReadLine`): up to LF, with a CR directly before it dropped; input
+that ends without LF is a last line (CR kept); `none` at end of input. -/
+def cutLine (s : Bytes) : Option (Bytes × Bytes) :=
+  if s.isEmpty then none
+  else
     match Req.Form.cut 10 s with
-    | (_, none) => none
-    | (l, some rest) =>
-      let line := stripCR l
-      if line.isEmpty then some ([], rest)
-      else if (line.head?.map isLWS).getD false then none
+    | (l, none) => some (l, [])
+    | (l, some rest) => some (stripCR l, rest)
+
+/-- `validHeaderValueByte`. -/
+def validValueByte (c : UInt8) : Bool := !headerUnsafe c
+
+/-- Continuation lines (`readContinuedLineSlice`): while the next line starts with SP/TAB it
+is trimmed and appended after a single space. -/
+def absorb : Nat → Bytes → Bytes → Option (Bytes × Bytes)
+  | 0, _, _ => none
+  | fuel + 1, acc, rest =>
+    if (rest.head?.map isLWS).getD false then
+      match cutLine (rest.dropWhile isLWS) with
+      | none => some (acc ++ [32], [])
+      | some (l, rest') => absorb fuel (acc ++ 32 :: trim l) rest'
+    else some (acc, rest)
+
+/-- MIME header block (`textproto.readMIMEHeader`): lines up to the blank line; the first
+line must not start with white space; every logical line needs a colon; the key is one or
+more token bytes or spaces (canonicalised unless it contains a space); value bytes are
+validated; the value is trimmed. -/
+def readHeaders : Nat → Bool → Bytes → Except Err (List (Bytes × Bytes) × Bytes)
+  | 0, _, _ => .error .malformed
+  | fuel + 1, first, s =>
+    match cutLine s with
+    | none => .error .eof
+    | some (line, rest) =>
+      if line.isEmpty then .ok ([], rest)
+      else if first && (line.head?.map isLWS).getD false then .error .malformed
+      else if !line.contains 58 then .error .malformed
       else
-        match Req.Form.cut 58 line with
-        | (_, none) => none
-        | (k, some v) =>
-          if k.isEmpty || !k.all isTokenByte then none
-          else (readHeaders fuel rest).map fun r => ((canonicalMIMEHeaderKey k, trim v) :: r.1, r.2)
+        match absorb (rest.length + 1) (trim line) rest with
+        | none => .error .malformed
+        | some (full, rest') =>
+          let k := (Req.Form.cut 58 full).1
+          let v := ((Req.Form.cut 58 full).2).getD []
+          if k.isEmpty || !k.all (fun c => isTokenByte c || c == 32) then .error .malformed
+          else if !v.all validValueByte then .error .malformed
+          else
+            match readHeaders fuel false rest' with
+            | .error e => .error e
+            | .ok (hs, rest'') =>
+              .ok (((if k.contains 32 then k else canonGo true k), trimLeft v) :: hs, rest'')
 
 structure RawPart where
   headers : List (Bytes × Bytes)
   content : Bytes
 deriving Repr, DecidableEq
 
-/-- Parts after the opening delimiter line. The content of a part ends at the first
+/-- `matchAfterPrefix`: what may follow `\r\n--b` for it to end the content. -/
+def boundaryAfter : Bytes → Bool
+  | [] => true
+  | c :: r => c == 32 || c == 9 || c == 13 || c == 10 || (c == 45 && r.head? == some 45)
+
+/-- First occurrence of `d` that `boundaryAfter` accepts: (before, after). -/
+def splitBoundary (d : Bytes) : Bytes → Option (Bytes × Bytes)
+  | [] => none
+  | c :: cs =>
+    if d.isPrefixOf (c :: cs) && boundaryAfter ((c :: cs).drop d.length)
+    then some ([], (c :: cs).drop d.length)
+    else (splitBoundary d cs).map fun r => (c :: r.1, r.2)
+
+/-- What follows `--b` on a boundary line (`isBoundaryDelimiterLine` / `isFinalBoundary`):
+`some none` = close delimiter, `some (some more)` = a new part starts at `more`. -/
+def afterBoundary (post : Bytes) : Option (Option Bytes) :=
+  match post with
+  | 45 :: 45 :: r =>
+    let r' := r.dropWhile isLWS
+    if r'.isEmpty || crlf.isPrefixOf r' then some none else none
+  | _ =>
+    let r' := post.dropWhile isLWS
+    if crlf.isPrefixOf r' then some (some (r'.drop 2)) else none
+
+/-- Parts after a delimiter line. The content of a part ends at the first accepted
 `\r\n--b`; directly after the header block `--b` alone also counts (Go's "at beginning of
-body, allow dashBoundary"), which is what searching in `\r\n ++ rest` does. After the
-delimiter: `--` = close delimiter (the epilogue is ignored), CRLF = another part. -/
-def parseParts (d : Bytes) : Nat → Bytes → Option (List RawPart)
-  | 0, _ => none
+body, allow dashBoundary"), which is what searching in `\r\n ++ rest` does. -/
+def parseParts (d : Bytes) : Nat → Bytes → Except Err (List RawPart)
+  | 0, _ => .error .malformed
   | fuel + 1, s =>
-    match readHeaders (s.length + 1) s with
-    | none => none
-    | some (hdrs, rest) =>
-      match splitDelim d (crlf ++ rest) with
-      | none => none
+    match readHeaders (s.length + 1) true s with
+    | .error .eof => .ok []
+    | .error e => .error e
+    | .ok (hdrs, rest) =>
+      match splitBoundary d (crlf ++ rest) with
+      | none => .error .malformed
       | some (pre, post) =>
         let part : RawPart := ⟨hdrs, pre.drop 2⟩
-        match post with
-        | 45 :: 45 :: _ => some [part]
-        | 13 :: 10 :: more => (parseParts d fuel more).map fun r => part :: r
-        | _ => none
+        match afterBoundary post with
+        | none => .error .malformed
+        | some none => .ok [part]
+        | some (some more) =>
+          match parseParts d fuel more with
+          | .error e => .error e
+          | .ok ps => .ok (part :: ps)
 
-/-- The multipart reader: opening delimiter line, then the parts. A body with no part at all
-is the bare close delimiter (its leading CRLF is skipped as preamble). -/
-def parseBody (b : Bytes) (body : Bytes) : Option (List RawPart) :=
-  if (dashes ++ b ++ crlf).isPrefixOf body then
-    parseParts (delim b) (body.length + 1) (body.drop (b.length + 4))
-  else if (delim b ++ dashes).isPrefixOf body then some []
-  else none
+/-- Preamble: lines are skipped until the first delimiter line (`--b` LWS* CRLF) or close
+delimiter. A first delimiter line ending in a bare LF switches Go's reader to LF-only
+framing, which this model does not cover. -/
+def skipPreamble (db : Bytes) : Nat → Bytes → Except Err (Option Bytes)
+  | 0, _ => .error .malformed
+  | fuel + 1, s =>
+    match Req.Form.cut 10 s with
+    | (l, none) =>
+      -- last line without LF: only a close delimiter is acceptable
+      if (db ++ dashes).isPrefixOf l && ((l.drop (db.length + 2)).dropWhile isLWS).isEmpty then .ok none
+      else .error .malformed
+    | (l, some rest) =>
+      if db.isPrefixOf l then
+        let r := (l.drop db.length).dropWhile isLWS
+        if r == [13] then .ok (some rest)
+        else if r.isEmpty then .error .unsupported
+        else if (db ++ dashes).isPrefixOf l &&
+            ((l.drop (db.length + 2)).dropWhile isLWS) == [13] then .ok none
+        else skipPreamble db fuel rest
+      else skipPreamble db fuel rest
+
+/-- The multipart reader. -/
+def parseBody (b : Bytes) (body : Bytes) : Except Err (List RawPart) :=
+  match skipPreamble (dashes ++ b) (body.length + 1) body with
+  | .error e => .error e
+  | .ok none => .ok []
+  | .ok (some rest) => parseParts (delim b) (body.length + 1) rest
 
 /-- `mime.consumeValue` after the opening quote: a backslash escapes only a following
 tspecial (otherwise it is literal — the MSIE rule), CR or LF abort, `"` ends. -/
@@ -241,49 +330,64 @@ def isTokenChar (c : UInt8) : Bool := 32 < c && c < 127 && !isTSpecial c
 
 def skipWs (s : Bytes) : Bytes := s.dropWhile isBlank
 
-/-- `consumeMediaParam` in a loop: `; key=value` entries, keys lower-cased. Keys containing
-`*` (RFC 2231 continuations) are outside this model: `none`. -/
-def parseParams : Nat → Bytes → Option (List (Bytes × Bytes))
-  | 0, _ => none
+/-- `consumeMediaParam` in a loop: `; key=value` entries, keys lower-cased. -/
+def parseParams : Nat → Bytes → Except Err (List (Bytes × Bytes))
+  | 0, _ => .error .malformed
   | fuel + 1, v =>
     match skipWs v with
-    | [] => some []
+    | [] => .ok []
     | c :: r0 =>
-      if c != 59 then none
+      if c != 59 then .error .malformed
       else
         let r1 := skipWs r0
         let key := r1.takeWhile isTokenChar
         let r2 := skipWs (r1.dropWhile isTokenChar)
-        if key.isEmpty then (if r1.all isBlank then some [] else none)   -- trailing semicolon
-        else if key.contains 42 then none
+        if key.isEmpty then (if r1.isEmpty then .ok [] else .error .malformed)   -- trailing semicolon
         else
           match r2 with
           | 61 :: r3 =>
             match skipWs r3 with
             | 34 :: r4 =>
               match consumeQuoted r4 with
-              | none => none
-              | some (val, rest) => (parseParams fuel rest).map fun ps => (lower key, val) :: ps
+              | none => .error .malformed
+              | some (val, rest) =>
+                match parseParams fuel rest with
+                | .error e => .error e
+                | .ok ps => .ok ((lower key, val) :: ps)
             | r4 =>
               let val := r4.takeWhile isTokenChar
-              if val.isEmpty then none
-              else (parseParams fuel (r4.dropWhile isTokenChar)).map fun ps => (lower key, val) :: ps
-          | _ => none
+              if val.isEmpty then .error .malformed
+              else
+                match parseParams fuel (r4.dropWhile isTokenChar) with
+                | .error e => .error e
+                | .ok ps => .ok ((lower key, val) :: ps)
+          | _ => .error .malformed
 
 /-- duplicate parameter names with different values are an error in `mime.ParseMediaType`. -/
 def dupConflict : List (Bytes × Bytes) → Bool
   | [] => false
   | p :: ps => ps.any (fun q => q.1 == p.1 && q.2 != p.2) || dupConflict ps
 
-/-- `mime.ParseMediaType` for a disposition: (lower-cased type, parameters). -/
-def parseDisposition (v : Bytes) : Option (Bytes × List (Bytes × Bytes)) :=
+/-- `checkMediaTypeDisposition`: `token` or `token/token`. -/
+def validType (t : Bytes) : Bool :=
+  let a := t.takeWhile isTokenChar
+  let r := t.dropWhile isTokenChar
+  !a.isEmpty &&
+  (r.isEmpty || (r.head? == some 47 && !(r.drop 1).isEmpty && (r.drop 1).all isTokenChar))
+
+/-- `mime.ParseMediaType`: (lower-cased type, parameters). Parameters whose name contains
+`*` (RFC 2231) are outside this model. -/
+def parseMediaType (v : Bytes) : Except Err (Bytes × List (Bytes × Bytes)) :=
   let base := v.takeWhile (fun c => c != 59)
   let typ := lower (((base.reverse.dropWhile isBlank).reverse).dropWhile isBlank)
-  if typ.isEmpty || !typ.all isTokenChar then none
+  if !validType typ then .error .malformed
   else
     match parseParams (v.length + 1) (v.dropWhile (fun c => c != 59)) with
-    | none => none
-    | some ps => if dupConflict ps then none else some (typ, ps)
+    | .error e => .error e
+    | .ok ps =>
+      if ps.any (fun p => p.1.contains 42) then .error .unsupported
+      else if dupConflict ps then .error .malformed
+      else .ok (typ, ps)
 
 inductive Item where
   | field (name value : Bytes)
@@ -295,29 +399,40 @@ def lookup (k : Bytes) : List (Bytes × Bytes) → Bytes
   | p :: ps => if p.1 == k then p.2 else lookup k ps
 
 /-- What `Reader.ReadForm` / `Part.FormName` / the `filename` parameter / the part's
-Content-Type header make of one part; parts without a form-data name are dropped.
+Content-Type header make of one part; parts without a form-data name are dropped (`.ok none`).
 (`Part.FileName` additionally applies `filepath.Base`; the raw parameter is modelled.) -/
-def itemOf (p : RawPart) : Option Item :=
-  match parseDisposition (lookup cdHeader p.headers) with
-  | none => none
-  | some (typ, ps) =>
-    if typ != formData then none
+def itemOf (p : RawPart) : Except Err (Option Item) :=
+  match parseMediaType (lookup cdHeader p.headers) with
+  | .error .unsupported => .error .unsupported
+  | .error _ => .ok none
+  | .ok (typ, ps) =>
+    if typ != formData then .ok none
     else
       let name := lookup nameKey ps
-      if name.isEmpty then none
+      if name.isEmpty then .ok none
       else
         let fn := lookup filenameKey ps
-        if fn.isEmpty then some (.field name p.content)
-        else some (.file name fn (lookup ctHeader p.headers) p.content)
+        if fn.isEmpty then .ok (some (.field name p.content))
+        else .ok (some (.file name fn (lookup ctHeader p.headers) p.content))
+
+def itemsOf : List RawPart → Except Err (List Item)
+  | [] => .ok []
+  | p :: ps =>
+    match itemOf p, itemsOf ps with
+    | .error e, _ => .error e
+    | _, .error e => .error e
+    | .ok none, .ok r => .ok r
+    | .ok (some i), .ok r => .ok (i :: r)
 
 /-- The server's view of a multipart body: the items in order of arrival. -/
-def serverForm (b body : Bytes) : Option (List Item) :=
-  (parseBody b body).map fun parts => parts.filterMap itemOf
+def serverForm (b body : Bytes) : Except Err (List Item) :=
+  match parseBody b body with
+  | .error e => .error e
+  | .ok parts => itemsOf parts
 
-/-- What reaches the server under the repaired quoting: everything exactly, except CR / LF
-(which no quoted-string can carry). -/
-def arriveByte (c : UInt8) : Bytes :=
-  if c == 13 then [37, 48, 68] else if c == 10 then [37, 48, 65] else [c]
+/-- What reaches the server under the repaired quoting: every byte a header can carry
+arrives exactly; the others arrive percent-encoded. -/
+def arriveByte (c : UInt8) : Bytes := if headerUnsafe c then pctByte c else [c]
 def arrive (s : Bytes) : Bytes := s.flatMap arriveByte
 
 end Req.Multipart
